@@ -700,6 +700,7 @@ origin_type_checkers = {
     Union: check_union
 }
 _subclass_check_unions = hasattr(Union, '__union_set_params__')
+_pep604_union_type = getattr(sys.modules['types'], 'UnionType', None)  # Python 3.10+
 if Literal is not None:
     origin_type_checkers[Literal] = check_literal
 
@@ -786,6 +787,9 @@ def check_type(argname: str, value, expected_type, memo: Optional[_TypeCheckMemo
                 raise TypeError(
                     'type of {} must be {}; got {} instead'.
                     format(argname, qualified_name(expected_type), qualified_name(value)))
+    elif _pep604_union_type is not None and isinstance(expected_type, _pep604_union_type):
+        # `X | Y` (PEP 604) has no `__origin__`, unlike `typing.Union[X, Y]`.
+        check_union(argname, value, expected_type, memo)
     elif isinstance(expected_type, TypeVar):
         # Only happens on < 3.6
         check_typevar(argname, value, expected_type, memo)
